@@ -11,6 +11,12 @@ CHECKS = {
     "C01": ("exploration", "runtime monitoring: repeated real compiles under forced hash seeds (getrandom shim), thread counts and seeded scheduler jitter; sha256 oracle",
             "Every cell (source, options) is compiled K times in separate processes whose hidden inputs (HashMap seeds, worker count, interleaving) are forced to differ; the oracle is byte equality. Held = no cell produced two outputs on the runs observed.",
             "Trusts the LD_PRELOAD getrandom shim to vary std RandomState (verified: launch orders differ per seed); cannot force one specific adversarial seed; inputs = corpus + generator families.", "DESIGN.md §5 C01"),
+    "C02": ("exploration", "runtime monitoring: scheduler/ACL hook trace + offline happens-before race checker with predictive launch analysis; outcome monitor; seeded jitter",
+            "Every context access and scheduler transition of real compiles is logged; an offline checker rebuilds the forced-order DAG (dependencies enforced at launch, creation, unblocking) and requires every conflicting access pair to be ordered by it, also for every earlier poll point at which the job could already have been launched. One trace therefore vouches for all timings of the same job graph.",
+            "Trusts the discriminant tables and the hook placement (end/complete logged before, launch after the state change); job graphs explored = corpus + generator families x options x thread counts.", "DESIGN.md §5 C02, Appendix A"),
+    "C14": ("exploration", "runtime monitoring: with/without --emit-ir byte compare; read-back probe hook on every persisted set(); written-file-map injectivity checker; stale build-dir histories",
+            "Each source is compiled with and without --emit-ir (sha compare); with it, a hook re-reads every item right after it is written and reports readable/equal/byte-fixpoint, and every (item -> path) write is logged and checked for collisions (also under ASCII case folding). Histories reuse a build dir left by another source.",
+            "Table-typed items are judged by byte fixpoint, serde-typed by ==; case-insensitive file systems are modelled, not mounted; hostile glyph names are bounded to NAME_MAX-safe lengths.", "DESIGN.md §5 C14"),
 }
 
 NOT_YET = {}
